@@ -271,3 +271,151 @@ Proof.
   rewrite session_split. destruct (scripts_end true hr c mw rt cl fl) as [[rs0 e2] w2].
   intros Hs Hns. apply (wrapper_close_all _ _ _ _ _ _ _ _ Hs Hns).
 Qed.
+
+(* ---- the "invalid close code" fallback retries (Spec.wrapper_retry_ok) *)
+Definition stopped (w : ws) : ws := set_pump false (set_hand None w).
+
+(* a close() with a valid code on a socket that is not closed makes exactly one send() call;
+   if the server rejects it with "invalid close code" the exception is re-raised as is and
+   the socket is still open for another attempt *)
+Lemma close_try hr c ca co reason w r w' :
+  code_check ca = inl co -> is_closed (stopped w) = false ->
+  op_close true hr c ca reason w = (r, w') ->
+  exists k rr, trace w' = trace w ++ [(EClose (or1000 co) rr, k)]
+    /\ (k = SInvalid -> r = Raise XInvalidCode /\ is_closed (stopped w') = false)
+    /\ (r = Raise XInvalidCode -> k = SInvalid).
+Proof.
+  intros Ec Hcl. unfold op_close. fold (stopped w). rewrite Ec, Hcl.
+  unfold do_send. unfold is_closed, stopped in Hcl. cbn in Hcl. cbn.
+  destruct (flag w) eqn:Ef; [destruct (st w); discriminate|].
+  destruct (st w) eqn:Es; try discriminate; cbn; rewrite ?Es, ?Ef; cbn;
+    (destruct (fails w) as [|k fa]; cbn; [|destruct k; cbn]; intro H; injection H as <- <-;
+     do 2 eexists; (split; [reflexivity|]); (split; [intro X; try discriminate X|intro X; try discriminate X; try reflexivity]);
+     try (split; [reflexivity|]; unfold is_closed, stopped; cbn; rewrite ?Es, ?Ef; reflexivity)).
+Qed.
+
+Lemma retry_single fb z rr k : (k = SInvalid -> z = fb) -> retry_ok fb [(EClose z rr, k)] = true.
+Proof. intro H. destruct k; cbn; try reflexivity. rewrite (H eq_refl), Z.eqb_refl. reflexivity. Qed.
+
+Lemma retry_app_single fb z rr k l2 :
+  (k = SInvalid -> z = fb \/ close_codes l2 <> []) -> retry_ok fb l2 = true ->
+  retry_ok fb ((EClose z rr, k) :: l2) = true.
+Proof.
+  intros H H2. destruct k; cbn; try exact H2. rewrite H2, andb_true_r.
+  destruct (H eq_refl) as [-> | Hn]; [rewrite Z.eqb_refl; reflexivity|].
+  destruct (close_codes l2); [congruence | apply orb_true_r].
+Qed.
+
+Lemma stopped_closed_after_noclose hr c z w r w' :
+  valid_code z = true -> op_close true hr c (CInt z) false w = (r, w') ->
+  is_closed (stopped w) = true -> trace w' = trace w.
+Proof.
+  intros Hv Hs Hc. unfold op_close in Hs. fold (stopped w) in Hs.
+  rewrite (code_check_valid _ Hv), Hc in Hs. injection Hs as _ <-. reflexivity.
+Qed.
+
+(* the cleanup retries after a rejected close, and closes at all when the socket is open *)
+Lemma cleanup_retry hr c w e w' :
+  cleanup true hr c w = (e, w') ->
+  exists l, codes_after w w' l /\ retry_ok fallback_ws_error_code l = true
+            /\ (is_closed (stopped w) = false -> close_codes l <> []).
+Proof.
+  unfold cleanup. intro Hs.
+  destruct (op_close true hr c (CInt (err_code c)) false w) as [r w1] eqn:E1.
+  assert (Hvf : valid_code fallback_ws_error_code = true) by reflexivity.
+  assert (Ecf : code_check (CInt fallback_ws_error_code) = inl (Some fallback_ws_error_code))
+    by (apply code_check_valid; exact Hvf).
+  destruct (valid_code (err_code c)) eqn:Hv.
+  - pose proof (code_check_valid _ Hv) as Ece.
+    destruct (is_closed (stopped w)) eqn:Hcl.
+    + (* already closed: nothing is sent, close() returns *)
+      pose proof (stopped_closed_after_noclose _ _ _ _ _ _ Hv E1 Hcl) as T1.
+      unfold op_close in E1. fold (stopped w) in E1. rewrite Ece, Hcl in E1. injection E1 as <- <-.
+      injection Hs as <- <-. exists []. unfold codes_after. rewrite app_nil_r.
+      repeat split; auto. discriminate.
+    + destruct (close_try _ _ _ _ _ _ _ _ Ece Hcl E1) as [k [rr [T1 [Hk1 Hk2]]]].
+      destruct r as [v|x|].
+      * injection Hs as <- <-. eexists; split; [exact T1|]. split; [|intros _; discriminate].
+        apply retry_single. intro X. destruct (Hk1 X) as [Y _]. discriminate.
+      * destruct (mentions_invalid_code c x) eqn:Em.
+        -- destruct (op_close true hr c (CInt fallback_ws_error_code) false w1) as [r2 w2] eqn:E2.
+           assert (W : w' = w2) by (destruct r2; injection Hs as _ <-; reflexivity). subst w'.
+           assert (Hx : x = XInvalidCode).
+           { unfold mentions_invalid_code in Em. rewrite Ece in Em. destruct x; try discriminate. reflexivity. }
+           subst x. destruct (Hk1 (Hk2 eq_refl)) as [_ Hcl1].
+           destruct (close_try _ _ _ _ _ _ _ _ Ecf Hcl1 E2) as [k2 [rr2 [T2 _]]].
+           eexists ([_] ++ [_]). split; [unfold codes_after; rewrite T2, T1, <- app_assoc; reflexivity|].
+           split; [|intros _; discriminate].
+           cbn [app]. apply retry_app_single.
+           ++ intros _. right. discriminate.
+           ++ apply retry_single. intros _. reflexivity.
+        -- injection Hs as <- <-. eexists; split; [exact T1|]. split; [|intros _; discriminate].
+           apply retry_single. intro X. destruct (Hk1 X) as [Y _]. injection Y as ->. discriminate.
+      * injection Hs as <- <-. eexists; split; [exact T1|]. split; [|intros _; discriminate].
+        apply retry_single. intro X. destruct (Hk1 X) as [Y _]. discriminate.
+  - (* the configured code is invalid: close() rejects it, the fallback code is used *)
+    unfold op_close in E1. rewrite (code_check_invalid _ Hv) in E1. injection E1 as <- <-.
+    unfold mentions_invalid_code in Hs. rewrite (code_check_invalid _ Hv) in Hs.
+    destruct (op_close true hr c (CInt fallback_ws_error_code) false w) as [r2 w2] eqn:E2.
+    assert (W : w' = w2) by (destruct r2; injection Hs as _ <-; reflexivity). subst w'.
+    destruct (is_closed (stopped w)) eqn:Hcl.
+    + exists []. unfold codes_after. rewrite app_nil_r.
+      rewrite (stopped_closed_after_noclose _ _ _ _ _ _ Hvf E2 Hcl). repeat split; auto. discriminate.
+    + destruct (close_try _ _ _ _ _ _ _ _ Ecf Hcl E2) as [k2 [rr2 [T2 _]]].
+      eexists; split; [exact T2|]. split; [|intros _; discriminate].
+      apply retry_single. intros _. reflexivity.
+Qed.
+
+Lemma handle_exception_not_http hr c x w :
+  not_http x -> handle_exception true hr c x w = cleanup true hr c w.
+Proof. destruct x; cbn; intro H; try reflexivity; destruct H. Qed.
+
+Theorem wrapper_retry_all hr c rs e2 w2 rs' e' w' :
+  finish true hr c (rs, e2, w2) = (rs', e', w') -> e2 <> Stuck ->
+  exists l, codes_after w2 w' l
+            /\ wrapper_retry_ok fallback_ws_error_code (fst (cause_of e2)) l = true.
+Proof.
+  intros Hs Hns. unfold finish in Hs. destruct e2 as [|x|]; [| |congruence].
+  - (* returned: close(1000), then the cleanup if that raised *)
+    cbn [cause_of fst wrapper_retry_ok].
+    destruct (op_close true hr c CNone false w2) as [r w3] eqn:E3.
+    assert (Ec : code_check CNone = inl None) by reflexivity.
+    destruct (is_closed (stopped w2)) eqn:Hcl.
+    + unfold op_close in E3. fold (stopped w2) in E3. rewrite Ec, Hcl in E3. injection E3 as <- <-.
+      injection Hs as _ _ <-. exists []. unfold codes_after. rewrite app_nil_r. auto.
+    + destruct (close_try _ _ _ _ _ _ _ _ Ec Hcl E3) as [k [rr [T [Hk1 Hk2]]]].
+      destruct r as [v|x|].
+      * injection Hs as _ _ <-. eexists; split; [exact T|].
+        apply retry_single. intro X. destruct (Hk1 X) as [Y _]. discriminate.
+      * destruct (handle_exception true hr c x w3) as [e3 w4] eqn:E4. injection Hs as _ _ <-.
+        assert (Hx : not_http x).
+        { destruct (run_op_exc true hr c (OClose CNone false) w2 x w3 E3) as [A|[r0 [A _]]]; [exact A|discriminate]. }
+        rewrite (handle_exception_not_http _ _ _ _ Hx) in E4.
+        destruct (cleanup_retry _ _ _ _ _ E4) as [lc [Hc [Hr Hne]]].
+        exists ([(EClose (or1000 None) rr, k)] ++ lc).
+        split; [unfold codes_after in *; rewrite Hc, T, <- app_assoc; reflexivity|].
+        cbn [app]. apply retry_app_single; [|exact Hr].
+        intro X. right. apply Hne. apply (Hk1 X).
+      * injection Hs as _ _ <-. eexists; split; [exact T|].
+        apply retry_single. intro X. destruct (Hk1 X) as [Y _]. discriminate.
+  - destruct (handle_exception true hr c x w2) as [e3 w3] eqn:E3. injection Hs as _ _ <-.
+    assert (HT : not_http x \/ fst (cause_of (Raised x)) = 3%nat)
+      by (destruct x; cbn; auto).
+    destruct HT as [Hx|H3].
+    + rewrite (handle_exception_not_http _ _ _ _ Hx) in E3.
+      destruct (cleanup_retry _ _ _ _ _ E3) as [lc [Hc [Hr _]]].
+      exists lc. split; [exact Hc|]. destruct x; cbn; try exact Hr; reflexivity.
+    + destruct (handle_exception_codes _ _ _ _ _ _ E3) as [l [Hc _]].
+      exists l. split; [exact Hc|]. rewrite H3. reflexivity.
+Qed.
+
+Theorem wrapper_retry_session hr c mw rt cl fl rs e w :
+  session true hr c true mw rt cl fl = (rs, e, w) ->
+  let '(rs0, e2, w2) := scripts_end true hr c mw rt cl fl in
+  e2 <> Stuck ->
+  exists l, trace w = trace w2 ++ l
+            /\ wrapper_retry_ok fallback_ws_error_code (fst (cause_of e2)) l = true.
+Proof.
+  rewrite session_split. destruct (scripts_end true hr c mw rt cl fl) as [[rs0 e2] w2].
+  intros Hs Hns. apply (wrapper_retry_all _ _ _ _ _ _ _ _ Hs Hns).
+Qed.
